@@ -239,7 +239,6 @@ def replay_collect(ctx, cands):
     from . import refpipe
     ROWS = [{'k': 'x', 'i': 0}, {'k': 'y', 'i': 1}, {'i': 2}, {'k': 'x', 'i': 3}, {'k': 5, 'i': 4}, {'k': '', 'i': 5}, {'k': 'y', 'i': 6}]
     for c in cands:
-        if c.unmodelled: c.status = 'inconclusive'; continue
         stage = c.model.get('stage')
         found = None
         for rows in (ROWS, []):
@@ -299,7 +298,6 @@ def unique(ctx):
     from .cli import run_jawk, show
     from . import refpipe
     for c in fam.candidates:
-        if c.unmodelled: c.status = 'inconclusive'; continue
         rows = [1, 2, 1, {'a': 1}, 2, {'a': 1}, [1], [1], 'x', 'x', None, None, 3]
         r = run_jawk(ctx, ['--unique', '--style', 'consise'], ' '.join(json.dumps(x) for x in rows).encode())
         exp = refpipe.pipeline(rows, unique=True)
